@@ -495,6 +495,93 @@ def make_shift_run(backend):
     return run
 
 
+def make_lib(backend, fn_name, kdt):
+    """conformance of the window specification with the real engine: a Python oracle for row_number / rank / dense_rank /
+    shift / cum_sum under every (descending, nulls position, partition) combination, on a table with nulls and ties"""
+    def run(carve):
+        import warnings
+
+        import polars as pl
+        import sqlalchemy as sqa
+
+        from .c13 import _enum_outcome
+
+        pdt = H.pdt
+        kvals = {"int": [3, None, 1, 3, 2, None, 1, 5, 2, 3], "str": ["c", None, "a", "c", "b", None, "a", "e", "b", "c"], "float": [3.5, None, 1.0, 3.5, 2.25, None, 1.0, 5.0, 2.25, 3.5]}[kdt]
+        df = pl.DataFrame({"g": [1, 1, 1, 1, 1, 2, 2, 2, 2, 2], "k": kvals, "h": list(range(10)), "v": [10, 20, None, 40, 50, 60, 70, None, 90, 100]})
+        rows = df.rows()
+        if backend == "polars":
+            t = pdt.Table(df, name="t")
+        else:
+            eng = sqa.create_engine("sqlite://")
+            df.write_database("t", eng)
+            t = pdt.Table("t", pdt.SqlAlchemy(eng))
+        n, bad = 0, []
+
+        def oracle(desc, nulls_last, part):
+            out = {}
+            groups = {}
+            for r in rows:
+                groups.setdefault(r[0] if part else 0, []).append(r)
+            for grp in groups.values():
+                def okey(r, tie):
+                    k = r[1]
+                    isnull = k is None
+                    # position of nulls first, then the key (reversed for descending), then the unique tiebreak h ascending
+                    return (isnull if nulls_last else not isnull, k)
+                nn = [r for r in grp if r[1] is not None]
+                nl = [r for r in grp if r[1] is None]
+                nn_sorted = sorted(nn, key=lambda r: r[1], reverse=desc)
+                # stable tiebreak by h ascending inside equal keys
+                nn_sorted = sorted(nn_sorted, key=lambda r: 0)  # keep order
+                buckets = []
+                for r in sorted(nn, key=lambda r: r[2]):
+                    pass
+                ordered_keys = sorted({r[1] for r in nn}, reverse=desc)
+                seq = []
+                for kv in ordered_keys:
+                    seq += sorted([r for r in nn if r[1] == kv], key=lambda r: r[2])
+                nulls = sorted(nl, key=lambda r: r[2])
+                seq = seq + nulls if nulls_last else nulls + seq
+                # ranks (ties share): position of the first row with the same key
+                for i, r in enumerate(seq):
+                    same = [j for j, q in enumerate(seq) if q[1] == r[1] or (q[1] is None and r[1] is None)]
+                    dense = len({(q[1] is None, q[1]) for q in seq[: same[0]]}) + 1
+                    out[r[2]] = {"row_number": i + 1, "rank": same[0] + 1, "dense_rank": dense, "shift": seq[i - 1][3] if i >= 1 else None, "shift_neg": seq[i + 2][3] if i + 2 < len(seq) else -7,
+                                 "cum_sum": (lambda vs: sum(x for x in vs if x is not None) if any(x is not None for x in vs) else None)([q[3] for q in seq[: i + 1]])}
+            return out
+
+        with warnings.catch_warnings():
+            warnings.simplefilter("ignore")
+            for desc in (False, True):
+                for nulls_last in (False, True):
+                    for part in (False, True):
+                        key = t.k.descending() if desc else t.k
+                        key = key.nulls_last() if nulls_last else key.nulls_first()
+                        kw = {"partition_by": t.g} if part else {}
+                        tie = fn_name not in ("rank", "dense_rank")
+                        arrange = [key, t.h] if tie else [key]
+                        e = {"row_number": lambda: pdt.row_number(arrange=arrange, **kw), "rank": lambda: pdt.rank(arrange=arrange, **kw), "dense_rank": lambda: pdt.dense_rank(arrange=arrange, **kw),
+                             "shift": lambda: t.v.shift(1, arrange=arrange, **kw), "shift_neg": lambda: t.v.shift(-2, -7, arrange=arrange, **kw), "cum_sum": lambda: t.v.cum_sum(arrange=arrange, **kw)}[fn_name]
+                        n += 1
+                        lab = f"{fn_name}(arrange=k{'.descending()' if desc else ''}.{'nulls_last' if nulls_last else 'nulls_first'}(){', h' if tie else ''}{', partition_by=g' if part else ''}) on {backend}, key type {kdt}"
+                        try:
+                            out = t >> pdt.mutate(w=e()) >> pdt.export(pdt.Polars())
+                        except pdt.errors.NotSupportedError:
+                            continue
+                        except Exception as ex:  # noqa: BLE001
+                            bad.append(f"{lab}: raises {type(ex).__name__}: {str(ex)[:150]}")
+                            continue
+                        want = oracle(desc, nulls_last, part)
+                        got = {r[2]: r[4] for r in out.rows()}
+                        diff = [(h, got[h], want[h][fn_name]) for h in sorted(got) if got[h] != want[h][fn_name]]
+                        if diff:
+                            bad.append(f"{lab}: rows (h, engine, documented) = {diff[:5]}")
+        return _enum_outcome(f"{fn_name} on {backend} (key type {kdt}): a Python oracle of the documented window semantics agrees with the engine for every flag / partition combination", n, bad)
+
+    return run
+
+
 def obligations(tier):
     fi = H.fn_info
     PB, SB = H.polars_backend, H.sql_backend
@@ -533,6 +620,11 @@ def obligations(tier):
     for backend in ("polars", "sqlite"):
         f = H.impl_function({"polars": PB.PolarsImpl, "sqlite": H.sqlite_backend.SqliteImpl}[backend], ops.shift, (Int64(), H.types_mod.Const(Int64()), H.types_mod.Const(Int64())))
         obs.append(Obligation(f"C05/W6/shift/{backend}", "W6", "shift(n) reads the row n positions earlier for every (symbolic) n", make_shift_run(backend), functions=[fi(f)] if f else []))
+        for fn_name in ("row_number", "rank", "dense_rank", "shift", "shift_neg", "cum_sum"):
+            for kdt in ("int", "str", "float"):
+                obs.append(Obligation(f"C05/LIB/{fn_name}/{backend}/{kdt}", "LIB", f"{fn_name} on {backend}: Python oracle of the documented window semantics vs the real engine", make_lib(backend, fn_name, kdt),
+                                      functions=[fi(PB.compile_col_expr), fi(PB.merge_desc_nulls_last)] if backend == "polars" else [fi(SB.SqlImpl.compile_col_expr), fi(SB.SqlImpl.compile_order)],
+                                      bounded="one 10-row table with nulls, ties and two partitions; 8 flag / partition combinations; native execution", tags=("cross_backend",)))
     return obs
 
 
